@@ -199,6 +199,16 @@ def _gen_emulsion(rng):
     L = rng.choice([4.0, 10.0, 7.5])
     n = rng.randint(0, 9)
     style = rng.choice(["uniform", "chain", "crowd", "dupes", "satellite", "twins", "vanished"])
+    if style == "uniform" and rng.random() < 0.3:
+        # pairs that touch exactly at an irrational centre distance: (0,0) and (a,a) with radii a / sqrt 2 each
+        drops = []
+        for _ in range(rng.randint(1, 3)):
+            a = rng.choice([1.0, 0.5, 1.5, 2.0])
+            p = [rng.uniform(1, L - 3) for _ in range(dim)]
+            q = [x + a for x in p] if dim > 1 else [p[0] + a * math.sqrt(2)]
+            rr = a * math.sqrt(dim) / 2 if dim > 1 else a * math.sqrt(2) / 2
+            drops += [(p, rr), (q, rr)]
+        return dim, L, False, drops, rng.choice([0, -0.3])
     if style in ("twins", "vanished"):
         drops = []
         for _ in range(rng.randint(1, 4)):
@@ -304,6 +314,10 @@ def _random_chunk(seeds):
                                 qfail.append("pairwise-value")
                             if sub and abs(ref) > 1e-9 and bool(objs[a].overlaps(objs[b], grid=grid)) != (ref < 0):
                                 qfail.append("overlaps-vs-surface-distance")
+                            # whatever rounding does, the two answers of the library agree with each other: overlap
+                            # exactly when ITS surface distance is negative (touching droplets: distance 0, no overlap)
+                            if sub and bool(objs[a].overlaps(objs[b], grid=grid)) != bool(dm[a, b] < 0):
+                                qfail.append("overlaps-vs-own-surface-distance")
             if not periodic and n >= 2:
                 nd = em.get_neighbor_distances()
                 nds = em.get_neighbor_distances(subtract_radius=True)
